@@ -69,7 +69,9 @@ var c02ProbeSrcs = []MSrc{
 	{Kind: "nuh", Nick: "me", User: "ident", Host: "host"},
 }
 
-var c02ProbeTrails = []c01Trail{{}, {Has: true, Trail: ""}, {Has: true, Trail: "a b"}, {Has: true, Trail: "me"}}
+var c02ProbeTrails = []c01Trail{{}, {Has: true, Trail: ""}, {Has: true, Trail: "a b"}, {Has: true, Trail: "me"},
+	// odd tokens: bare modifiers / signs as they occur in capability and mode lists
+	{Has: true, Trail: "-"}, {Has: true, Trail: "x ~ = -"}}
 
 const (
 	c02Welcome = ":irc.example 001 me :Welcome to the Internet Relay Network me!ident@host"
@@ -464,6 +466,9 @@ func c02Candidates() []string {
 		"PRIVMSG #c :\x01\x01", "PRIVMSG #c :\x01ACTION\x01", ":n!u@h PRIVMSG me :\x01VERSION\x01", ":n!u@h PRIVMSG me :\x01PING\x01", ":n!u@h PRIVMSG me :\x01PING 1\x01",
 		":irc.example 433 * me :Nickname is already in use", ":me!ident@host NICK you", ":irc.example CAP * LS :sasl multi-prefix",
 		":irc.example 353 me = #c :@a +b c", ":irc.example 352 me #c u h irc.example x H :0 Real", "ERROR :Closing link",
+		// capability lists with bare modifier tokens, and lines longer than the 4096-byte read buffer
+		":irc.example CAP * LS :x ~", ":irc.example CAP me ACK :-", ":irc.example CAP * ACK :=", ":irc.example CAP me NAK :-a ~",
+		":n!u@h PRIVMSG #c :" + strings.Repeat("x", 4080), ":n!u@h PRIVMSG #c :" + strings.Repeat("y", 5000), "@k=" + strings.Repeat("v", 4500) + " :n!u@h PRIVMSG #c :tagged",
 	} {
 		add(s)
 	}
@@ -637,7 +642,7 @@ func init() {
 	Register(&Prop{
 		ID: "C02",
 		Rule: "(1) every string over {@ : space ! ; = \\ \\x01 a # 1} up to length 6 (quick) / 7 (thorough) and (2) every concatenation of up to 4 / 5 tokens (24 verbs and numerics, 12 punctuation / prefix tokens) given to ParseLine, with Text/Target/Public on every non-nil result; " +
-			"(3) every probe line verb x 0-4 / 0-6 middle parameters over {me,#c,x} (CAP: plus LS, ACK, NAK, at most 4) x 4 trailings x 4 sources for the 30 verbs with built-in handling, sent through a connection 100 per session with state tracking off and on, each session closed by PING :sync-end and a well-formed PRIVMSG; " +
+			"(3) every probe line verb x 0-4 / 0-6 middle parameters over {me,#c,x} (CAP: plus LS, ACK, NAK, at most 4) x 6 trailings (absent, empty, two words, the own nick, a bare minus sign, odd modifier tokens) x 4 sources for the 30 verbs with built-in handling, sent through a connection 100 per session with state tracking off and on, each session closed by PING :sync-end and a well-formed PRIVMSG; " +
 			"(4) every sequence of up to 2 / 3 lines over one representative per outcome class (class = direct parse result, session outcome, warn/error log formats, verbs written in response; computed over a pool of about 8000 candidate lines) through a connection; " +
 			"distinct = distinct line (1,2), distinct (tracking, line) (3), distinct (tracking, sequence) (4)",
 		Assumptions: []string{
